@@ -110,19 +110,6 @@ theorem multi_spec (f : List Nat → List GEff → Loop (Bool × List GEff) (Lis
   cases hd : dispatchPlan n args lerr h with
   | mk b l => cases b <;> simp [fin]
 
-/-- the wrapper's shape: nothing without hooks, the dispatcher's plan otherwise -/
-theorem keeper_spec (hooks : Option (List Nat)) (g : List Nat → Bool × List GEff) (hg : g [] = (false, [])) :
-    (if (!hooks.isNone) = true then
-        (if (g (hooks.getD default)).1 = true then ((g (hooks.getD default)).1, [] ++ (g (hooks.getD default)).2)
-         else (false, [] ++ (g (hooks.getD default)).2))
-      else (false, [])) = g (hooks.getD []) := by
-  cases hooks with
-  | none => simp [hg]
-  | some l =>
-    simp only [Option.isNone_some, Bool.not_false, if_true, Option.getD_some, List.nil_append]
-    cases hd : g l with
-    | mk b l' => cases b <;> simp
-
 /-- `dispatchTo` over any listener list, from any context with the same test controls -/
 theorem run_general (n : GName) (args : List GVal) (name : String) (sargs : List String) (c : Ctx)
     (l : List Nat) (c' : Ctx) (hc : c'.ctl = c.ctl) :
@@ -199,62 +186,112 @@ theorem tie_Multi_BeforeSellingCoinsAllocated (h : List Nat) (a0 : Int) (a1 : Ac
 theorem tie_Keeper_BeforeFixedPriceAuctionCreated (a0 : Acc) (a1 : Dec) (a2 : Coin) (a3 : Denom) (a4 : List VS) (a5 : Int) (a6 : Int) (hooks : Option (List Nat)) (lerr : Nat → Bool) :
     Gen.Keeper_BeforeFixedPriceAuctionCreated a0 a1 a2 a3 a4 a5 a6 hooks lerr = dispatchPlan .beforeFixedCreated [.nat a0, .int a1, .coin a2, .nat a3, .sched a4, .int a5, .int a6] lerr (hooks.getD []) := by
   unfold Gen.Keeper_BeforeFixedPriceAuctionCreated
-  simp only [tie_Multi_BeforeFixedPriceAuctionCreated]
-  exact TieHooks.keeper_spec hooks (dispatchPlan _ _ lerr) rfl
+  cases hooks with
+  | none => simp [dispatchPlan]
+  | some l =>
+    simp only [tie_Multi_BeforeFixedPriceAuctionCreated]
+    generalize dispatchPlan _ _ lerr (Option.getD (some l) _) = p
+    rcases p with ⟨b, e⟩
+    cases b <;> simp
 
 theorem tie_Keeper_AfterFixedPriceAuctionCreated (a0 : Int) (a1 : Acc) (a2 : Dec) (a3 : Coin) (a4 : Denom) (a5 : List VS) (a6 : Int) (a7 : Int) (hooks : Option (List Nat)) (lerr : Nat → Bool) :
     Gen.Keeper_AfterFixedPriceAuctionCreated a0 a1 a2 a3 a4 a5 a6 a7 hooks lerr = dispatchPlan .afterFixedCreated [.int a0, .nat a1, .int a2, .coin a3, .nat a4, .sched a5, .int a6, .int a7] lerr (hooks.getD []) := by
   unfold Gen.Keeper_AfterFixedPriceAuctionCreated
-  simp only [tie_Multi_AfterFixedPriceAuctionCreated]
-  exact TieHooks.keeper_spec hooks (dispatchPlan _ _ lerr) rfl
+  cases hooks with
+  | none => simp [dispatchPlan]
+  | some l =>
+    simp only [tie_Multi_AfterFixedPriceAuctionCreated]
+    generalize dispatchPlan _ _ lerr (Option.getD (some l) _) = p
+    rcases p with ⟨b, e⟩
+    cases b <;> simp
 
 theorem tie_Keeper_BeforeBatchAuctionCreated (a0 : Acc) (a1 : Dec) (a2 : Dec) (a3 : Coin) (a4 : Denom) (a5 : List VS) (a6 : Int) (a7 : Dec) (a8 : Int) (a9 : Int) (hooks : Option (List Nat)) (lerr : Nat → Bool) :
     Gen.Keeper_BeforeBatchAuctionCreated a0 a1 a2 a3 a4 a5 a6 a7 a8 a9 hooks lerr = dispatchPlan .beforeBatchCreated [.nat a0, .int a1, .int a2, .coin a3, .nat a4, .sched a5, .int a6, .int a7, .int a8, .int a9] lerr (hooks.getD []) := by
   unfold Gen.Keeper_BeforeBatchAuctionCreated
-  simp only [tie_Multi_BeforeBatchAuctionCreated]
-  exact TieHooks.keeper_spec hooks (dispatchPlan _ _ lerr) rfl
+  cases hooks with
+  | none => simp [dispatchPlan]
+  | some l =>
+    simp only [tie_Multi_BeforeBatchAuctionCreated]
+    generalize dispatchPlan _ _ lerr (Option.getD (some l) _) = p
+    rcases p with ⟨b, e⟩
+    cases b <;> simp
 
 theorem tie_Keeper_AfterBatchAuctionCreated (a0 : Int) (a1 : Acc) (a2 : Dec) (a3 : Dec) (a4 : Coin) (a5 : Denom) (a6 : List VS) (a7 : Int) (a8 : Dec) (a9 : Int) (a10 : Int) (hooks : Option (List Nat)) (lerr : Nat → Bool) :
     Gen.Keeper_AfterBatchAuctionCreated a0 a1 a2 a3 a4 a5 a6 a7 a8 a9 a10 hooks lerr = dispatchPlan .afterBatchCreated [.int a0, .nat a1, .int a2, .int a3, .coin a4, .nat a5, .sched a6, .int a7, .int a8, .int a9, .int a10] lerr (hooks.getD []) := by
   unfold Gen.Keeper_AfterBatchAuctionCreated
-  simp only [tie_Multi_AfterBatchAuctionCreated]
-  exact TieHooks.keeper_spec hooks (dispatchPlan _ _ lerr) rfl
+  cases hooks with
+  | none => simp [dispatchPlan]
+  | some l =>
+    simp only [tie_Multi_AfterBatchAuctionCreated]
+    generalize dispatchPlan _ _ lerr (Option.getD (some l) _) = p
+    rcases p with ⟨b, e⟩
+    cases b <;> simp
 
 theorem tie_Keeper_BeforeAuctionCanceled (a0 : Int) (a1 : Acc) (hooks : Option (List Nat)) (lerr : Nat → Bool) :
     Gen.Keeper_BeforeAuctionCanceled a0 a1 hooks lerr = dispatchPlan .beforeAuctionCanceled [.int a0, .nat a1] lerr (hooks.getD []) := by
   unfold Gen.Keeper_BeforeAuctionCanceled
-  simp only [tie_Multi_BeforeAuctionCanceled]
-  exact TieHooks.keeper_spec hooks (dispatchPlan _ _ lerr) rfl
+  cases hooks with
+  | none => simp [dispatchPlan]
+  | some l =>
+    simp only [tie_Multi_BeforeAuctionCanceled]
+    generalize dispatchPlan _ _ lerr (Option.getD (some l) _) = p
+    rcases p with ⟨b, e⟩
+    cases b <;> simp
 
 theorem tie_Keeper_BeforeBidPlaced (a0 : Int) (a1 : Int) (a2 : Acc) (a3 : BidType) (a4 : Dec) (a5 : Coin) (hooks : Option (List Nat)) (lerr : Nat → Bool) :
     Gen.Keeper_BeforeBidPlaced a0 a1 a2 a3 a4 a5 hooks lerr = dispatchPlan .beforeBidPlaced [.int a0, .int a1, .nat a2, .bidType a3, .int a4, .coin a5] lerr (hooks.getD []) := by
   unfold Gen.Keeper_BeforeBidPlaced
-  simp only [tie_Multi_BeforeBidPlaced]
-  exact TieHooks.keeper_spec hooks (dispatchPlan _ _ lerr) rfl
+  cases hooks with
+  | none => simp [dispatchPlan]
+  | some l =>
+    simp only [tie_Multi_BeforeBidPlaced]
+    generalize dispatchPlan _ _ lerr (Option.getD (some l) _) = p
+    rcases p with ⟨b, e⟩
+    cases b <;> simp
 
 theorem tie_Keeper_BeforeBidModified (a0 : Int) (a1 : Int) (a2 : Acc) (a3 : BidType) (a4 : Dec) (a5 : Coin) (hooks : Option (List Nat)) (lerr : Nat → Bool) :
     Gen.Keeper_BeforeBidModified a0 a1 a2 a3 a4 a5 hooks lerr = dispatchPlan .beforeBidModified [.int a0, .int a1, .nat a2, .bidType a3, .int a4, .coin a5] lerr (hooks.getD []) := by
   unfold Gen.Keeper_BeforeBidModified
-  simp only [tie_Multi_BeforeBidModified]
-  exact TieHooks.keeper_spec hooks (dispatchPlan _ _ lerr) rfl
+  cases hooks with
+  | none => simp [dispatchPlan]
+  | some l =>
+    simp only [tie_Multi_BeforeBidModified]
+    generalize dispatchPlan _ _ lerr (Option.getD (some l) _) = p
+    rcases p with ⟨b, e⟩
+    cases b <;> simp
 
 theorem tie_Keeper_BeforeAllowedBiddersAdded (a0 : List AllowedArg) (hooks : Option (List Nat)) (lerr : Nat → Bool) :
     Gen.Keeper_BeforeAllowedBiddersAdded a0 hooks lerr = dispatchPlan .beforeAllowedBiddersAdded [.allowed a0] lerr (hooks.getD []) := by
   unfold Gen.Keeper_BeforeAllowedBiddersAdded
-  simp only [tie_Multi_BeforeAllowedBiddersAdded]
-  exact TieHooks.keeper_spec hooks (dispatchPlan _ _ lerr) rfl
+  cases hooks with
+  | none => simp [dispatchPlan]
+  | some l =>
+    simp only [tie_Multi_BeforeAllowedBiddersAdded]
+    generalize dispatchPlan _ _ lerr (Option.getD (some l) _) = p
+    rcases p with ⟨b, e⟩
+    cases b <;> simp
 
 theorem tie_Keeper_BeforeAllowedBidderUpdated (a0 : Int) (a1 : Acc) (a2 : Int) (hooks : Option (List Nat)) (lerr : Nat → Bool) :
     Gen.Keeper_BeforeAllowedBidderUpdated a0 a1 a2 hooks lerr = dispatchPlan .beforeAllowedBidderUpdated [.int a0, .nat a1, .int a2] lerr (hooks.getD []) := by
   unfold Gen.Keeper_BeforeAllowedBidderUpdated
-  simp only [tie_Multi_BeforeAllowedBidderUpdated]
-  exact TieHooks.keeper_spec hooks (dispatchPlan _ _ lerr) rfl
+  cases hooks with
+  | none => simp [dispatchPlan]
+  | some l =>
+    simp only [tie_Multi_BeforeAllowedBidderUpdated]
+    generalize dispatchPlan _ _ lerr (Option.getD (some l) _) = p
+    rcases p with ⟨b, e⟩
+    cases b <;> simp
 
 theorem tie_Keeper_BeforeSellingCoinsAllocated (a0 : Int) (a1 : Acc → Option Int) (a2 : Acc → Option Int) (hooks : Option (List Nat)) (lerr : Nat → Bool) :
     Gen.Keeper_BeforeSellingCoinsAllocated a0 a1 a2 hooks lerr = dispatchPlan .beforeSellingCoinsAllocated [.int a0, .amap a1, .amap a2] lerr (hooks.getD []) := by
   unfold Gen.Keeper_BeforeSellingCoinsAllocated
-  simp only [tie_Multi_BeforeSellingCoinsAllocated]
-  exact TieHooks.keeper_spec hooks (dispatchPlan _ _ lerr) rfl
+  cases hooks with
+  | none => simp [dispatchPlan]
+  | some l =>
+    simp only [tie_Multi_BeforeSellingCoinsAllocated]
+    generalize dispatchPlan _ _ lerr (Option.getD (some l) _) = p
+    rcases p with ⟨b, e⟩
+    cases b <;> simp
 
 /-! ### what the handler plans' interpreter does for a recorded wrapper call IS the translated wrapper's plan, executed -/
 
